@@ -2,10 +2,15 @@
    objecttree.Tree (CTree) or on a real object tree over real storage (COT); every step carries what the
    implementation presented after it.  check_all returns (index, code) for bad cases:
      code 1 = an observable differs from the model's (Model/Tree.v),
-     code 2 = the observed behaviour violates the property predicate spec_C06 (Model/Tree.v). *)
+     code 2 = the observed behaviour violates the property predicate spec_C06 (Model/Tree.v).
+   COI cases (object trees with ORDER IDS, Model/OrderIds.v instantiated with rationals, Model/OrderIdsQ.v): every step
+   also carries [rank] = the stored changes of the replica sorted by their real OrderId STRINGS (computed by the harness
+   from the strings themselves, not from GetAfterOrder); the model's order ids must induce the same ranking (code 1), and
+   the ranking must be the stored sequence, causal, stable over time and a function of the stored set (code 2,
+   spec_oid).  These histories contain local AddContent steps (XLocal). *)
 From Coq Require Import List NArith Bool Arith.
 Import ListNotations.
-From AnySync Require Export Model.Tree Model.TreeReject.
+From AnySync Require Export Model.Tree Model.TreeReject Model.OrderIds Model.OrderIdsQ.
 
 Definition mode_eqb (a b : mode) : bool :=
   match a, b with
@@ -70,10 +75,96 @@ Definition no_bad_shown (bad : list N) (hists : list (list step)) : bool :=
                              negb (any_bad bad (ob_iter o)) && negb (any_bad bad (ob_heads o))
                              && match ob_stored o with Some st => negb (any_bad bad st) | None => true end)) hists.
 
+(* level 4: object trees with order ids; deliveries (accepted or rejected), reopen, local AddContent *)
+Inductive istep :=
+| XRaw    (batch path : list N) (ok : bool) (m : mode) (heads iter stored rank : list N)
+| XReopen (ok : bool) (heads iter stored rank : list N)
+| XLocal  (id : N) (snap ok : bool) (heads iter stored rank : list N).
+
+Definition obs_io (o : iotree qid) (heads iter stored rank : list N) : bool :=
+  obs_ot (q_io_ot o) heads iter stored && list_eqb rank (q_io_stored o).
+
+(* the change the real tree built for a local add (as recorded in G) is the one the model builds *)
+Definition same_change (a b : change) : bool :=
+  N.eqb (cid a) (cid b) && list_eqb (isort (cprev a)) (isort (cprev b)) && N.eqb (csnap a) (csnap b)
+  && Bool.eqb (cissnap a) (cissnap b).
+
+Fixpoint run_io (G : list change) (bad : list N) (o : iotree qid) (h : list istep) : bool :=
+  match h with
+  | [] => true
+  | XRaw batch path ok m heads iter stored rank :: r =>
+      let '(o', res) := q_io_add_raw bad o (find_all G batch) path in
+      match res with
+      | AddErr => negb ok
+      | AddOk m' hs' => ok && mode_eqb m m' && list_eqb heads hs'
+      end && obs_io o' heads iter stored rank && run_io G bad o' r
+  | XReopen ok heads iter stored rank :: r =>
+      let o' := q_io_reopen o in
+      ok && obs_io o' heads iter stored rank && run_io G bad o' r
+  | XLocal id snap ok heads iter stored rank :: r =>
+      match q_io_add_content o id snap with
+      | None => false
+      | Some o' =>
+          ok && match find_change G id with
+                | Some c => same_change c (local_change (o_tree (q_io_ot o)) id snap)
+                | None => false
+                end
+          && obs_io o' heads iter stored rank && run_io G bad o' r
+      end
+  end.
+
+Definition step_of (s : istep) : step :=
+  match s with
+  | XRaw batch path ok m heads iter stored _ => SRaw batch path ok m heads iter stored
+  | XReopen ok heads iter stored _ => SReopen ok heads iter stored
+  | XLocal id snap ok heads iter stored _ => SRaw [id] [] ok (if snap then Rebuild else Append) heads iter stored
+  end.
+
+Definition rank_of (s : istep) : list N :=
+  match s with
+  | XRaw _ _ _ _ _ _ _ rk => rk
+  | XReopen _ _ _ _ rk => rk
+  | XLocal _ _ _ _ _ _ rk => rk
+  end.
+
+Definition stored_of (s : istep) : list N :=
+  match s with
+  | XRaw _ _ _ _ _ _ st _ => st
+  | XReopen _ _ _ st _ => st
+  | XLocal _ _ _ _ _ st _ => st
+  end.
+
+(* order ids never change and never reorder: an earlier ranking is the later one restricted *)
+Fixpoint rank_hist_ok (prev : list N) (h : list istep) : bool :=
+  match h with
+  | [] => true
+  | s :: r => list_eqb prev (restrict prev (rank_of s)) && rank_hist_ok (rank_of s) r
+  end.
+
+(* a locally created change is ranked after every one of its previous changes *)
+Definition local_after_parents (G : list change) (s : istep) : bool :=
+  match s with
+  | XLocal id _ true _ _ _ rk =>
+      match find_change G id, drop_to id rk with
+      | Some c, Some tl => forallb (fun p => negb (mem p tl)) (cprev c) && mem id rk
+      | _, _ => false
+      end
+  | _ => true
+  end.
+
+(* the STORED-ORDER predicate on the observed OrderId strings: ranking by the strings = what GetAfterOrder streams, it
+   has no repeats and is causal (every change after its previous changes), it only grows, a local change comes after
+   its parents, and two replicas (histories) holding the same set rank it the same way *)
+Definition spec_oid (G : list change) (hists : list (list istep)) : bool :=
+  forallb (forallb (fun s => list_eqb (rank_of s) (stored_of s) && seq_ok G (rank_of s) && local_after_parents G s)) hists
+  && forallb (rank_hist_ok []) hists
+  && fun_of_set (keyed_of (map rank_of (concat hists))).
+
 Inductive case :=
 | CTree (G : list change) (hists : list (list step))
 | COT (G : list change) (hists : list (list step))
-| COTV (G : list change) (bad : list N) (hists : list (list step)).
+| COTV (G : list change) (bad : list N) (hists : list (list step))
+| COI (G : list change) (bad : list N) (hists : list (list istep)).
 
 Definition model_ok (c : case) : bool :=
   match c with
@@ -88,6 +179,11 @@ Definition model_ok (c : case) : bool :=
       | [] => false
       | root :: _ => forallb (run_otv G bad (ot_init root)) hists
       end
+  | COI G bad hists =>
+      match G with
+      | [] => false
+      | root :: _ => forallb (run_io G bad (q_io_init root)) hists
+      end
   end.
 
 Definition spec_ok (c : case) : bool :=
@@ -95,6 +191,9 @@ Definition spec_ok (c : case) : bool :=
   | CTree G hists => spec_C06 G hists
   | COT G hists => spec_C06 G hists
   | COTV G bad hists => spec_C06 G hists && spec_C06_rej G hists && no_bad_shown bad hists
+  | COI G bad hists =>
+      let hs := map (map step_of) hists in
+      spec_C06 G hs && spec_C06_rej G hs && no_bad_shown bad hs && spec_oid G hists
   end.
 
 Fixpoint check_from (i : N) (l : list case) : list (N * N) :=
